@@ -364,7 +364,7 @@ func (s *Spec) ReadState(h *dbh.H) (st *State) {
 			continue // internal key / tombstone surfaced by the DB iterator: not "present"
 		}
 		if !full[ik{int(e.CF), string(e.Key), e.Version}] {
-			st.Iter = append(st.Iter, IterEnt{CF: int(e.CF), Key: string(e.Key), Ver: e.Version, Err: "value does not resolve (entry listed by the key-only iterator, skipped by the value iterator)"})
+			st.Iter = append(st.Iter, IterEnt{CF: int(e.CF), Key: string(e.Key), Ver: e.Version, Err: "value-does-not-resolve"}) // listed by the key-only iterator, skipped by the value iterator
 		}
 	}
 	_ = ko.Close()
